@@ -2,6 +2,8 @@ import LassoModel.Keys
 import LassoModel.Hash
 import LassoModel.Serde
 import LassoModel.Wrap
+import LassoModel.Markers
+import LassoModel.Borrow
 import LassoModel.Extracted
 /-
   Line-protocol driver: one operation per input line, one answer per output line.
@@ -618,6 +620,108 @@ def step (st : DState) (line : String) : DState × String :=
       match intoUsize spec raw with
       | .ok v => (st, s!"{v}")
       | _ => (st, "fault")
+    | _, _ => (st, "bad-op")
+  | ["marker", c, m, kk, sk] =>
+    -- prediction of the marker model for a probe program (C19)
+    let con : Option TCon := match c with
+      | "Rodeo" => some .rodeo
+      | "ThreadedRodeo" => some .threadedRodeo
+      | "RodeoReader" => some .reader
+      | "RodeoResolver" => some .resolver
+      | _ => none
+    let mk : Option Marker := match m with
+      | "Send" => some .send
+      | "Sync" => some .sync
+      | _ => none
+    let kind (s : String) : Option (Bool × Bool) := match s with
+      | "ord" => some (true, true)
+      | "nosend" => some (false, true)
+      | "nosync" => some (true, false)
+      | _ => none
+    match con, mk, kind kk, kind sk with
+    | some con, some mk, some (a, b), some (c', d) =>
+      let r := Markers.holds Extracted.structDefs Extracted.markerImpls 8 (Markers.asgOf a b c' d) mk (Markers.containerTy con)
+      (st, if r then "yes" else "no")
+    | _, _, _, _ => (st, "bad-op")
+  | ["borrowDyn", o, e, i] =>
+    let owner : Option Owner := match o with
+      | "Rodeo" => some .rodeo
+      | "ThreadedRodeo" => some .threaded
+      | "RodeoReader" => some .reader
+      | "RodeoResolver" => some .resolver
+      | _ => none
+    let entry : Option SigName := match e with
+      | "resolve" => some .resolve
+      | "try_resolve" => some .tryResolve
+      | "resolve_unchecked" => some .resolveUnchecked
+      | _ => none
+    let inv : Option Borrow.Invalidator := match i with
+      | "clear" => some .clear
+      | "clone_from" => some .cloneFrom
+      | "try_clone_from" => some .tryCloneFrom
+      | "into_reader" => some .intoReader
+      | "into_resolver" => some .intoResolver
+      | "drop" => some .drop
+      | "scope" => some .scopeEnd
+      | _ => none
+    match owner, entry, inv with
+    | some ow, some en, some iv =>
+      match Borrow.probeVia Extracted.fnSigs .traitResolver ow en iv with
+      | some (some code) => (st, s!"reject {code}")
+      | some none => (st, "accept")
+      | none => (st, "na")
+    | _, _, _ => (st, "bad-op")
+  | ["borrow", o, e, i] =>
+    -- prediction of the borrow model for a probe program (C20)
+    let owner : Option Owner := match o with
+      | "Rodeo" => some .rodeo
+      | "ThreadedRodeo" => some .threaded
+      | "RodeoReader" => some .reader
+      | "RodeoResolver" => some .resolver
+      | "dynResolver" => some .traitResolver
+      | _ => none
+    let entry : Option SigName := match e with
+      | "resolve" => some .resolve
+      | "try_resolve" => some .tryResolve
+      | "resolve_unchecked" => some .resolveUnchecked
+      | "index" => some .index
+      | "iter" => some .iter
+      | "strings" => some .strings
+      | "into_iter" => some .intoIter
+      | _ => none
+    let inv : Option Borrow.Invalidator := match i with
+      | "clear" => some .clear
+      | "clone_from" => some .cloneFrom
+      | "try_clone_from" => some .tryCloneFrom
+      | "into_reader" => some .intoReader
+      | "into_resolver" => some .intoResolver
+      | "drop" => some .drop
+      | "scope" => some .scopeEnd
+      | _ => none
+    match owner, entry, inv with
+    | some ow, some en, some iv =>
+      -- a trait object borrows its container: the operations are those of the container behind it
+      match Borrow.probe Extracted.fnSigs ow en iv with
+      | some (some code) => (st, s!"reject {code}")
+      | some none => (st, "accept")
+      | none => (st, "na")
+    | _, _, _ => (st, "bad-op")
+  | ["staticArg", o, m] =>
+    let owner : Option Owner := match o with
+      | "Rodeo" => some .rodeo
+      | "ThreadedRodeo" => some .threaded
+      | "dynInterner" => some .traitInterner
+      | _ => none
+    let name : Option SigName := match m with
+      | "get_or_intern_static" => some .getOrInternStatic
+      | "try_get_or_intern_static" => some .tryGetOrInternStatic
+      | "get_or_intern" => some .getOrIntern
+      | "try_get_or_intern" => some .tryGetOrIntern
+      | _ => none
+    match owner, name with
+    | some ow, some n => match Borrow.findSig Extracted.fnSigs ow n with
+      | some sg => (st, if sg.strArgStatic == some true then "reject E0597" else "accept")
+      | none => (st, "na")
     | _, _ => (st, "bad-op")
   | ["case", key, hasher] =>
     match capacityOfName key, hashByName hasher with
